@@ -326,6 +326,44 @@ fn explore(ctx: &Ctx, rep: &mut Report) {
         w.flush().unwrap();
     }
     rep.merge(r);
+    // Scale family: block scalars (literal and folded, >= 3 content lines) at every nesting depth 1..=40 of 2-space
+    // block mappings, i.e. content indents 4..82 — beyond the 16 / 32-byte vectors the block-scalar scanner measures
+    // indentation with — followed by a sibling at the same level and a top-level key; LF, CRLF and CR.
+    let maxd = 40usize;
+    let r = par_range_in(ctx, "scale/deep-block-scalars", (maxd as u64) * 2 * 3, 1, |i, rep| {
+        let d = 1 + (i / 6) as usize;
+        let folded = (i / 3) % 2 == 1;
+        let brk = [Brk::Lf, Brk::CrLf, Brk::Cr][(i % 3) as usize];
+        let nl = match brk { Brk::Lf => "\n", Brk::CrLf => "\r\n", Brk::Cr => "\r" };
+        let mut text = String::new();
+        for lvl in 0..d {
+            text.push_str(&" ".repeat(2 * lvl));
+            text.push_str(&format!("k{lvl}:{nl}"));
+        }
+        let ind = " ".repeat(2 * d);
+        text.push_str(&format!("{ind}text: {}{nl}", if folded { ">-" } else { "|-" }));
+        for line in ["first line of text", "second line of text", "third line of text"] {
+            text.push_str(&format!("{ind}  {line}{nl}"));
+        }
+        text.push_str(&format!("{ind}after: 1{nl}tail: some trailing value long enough to fill a chunk{nl}"));
+        let scalar = if folded { "first line of text second line of text third line of text" } else { "first line of text\nsecond line of text\nthird line of text" };
+        let mut inner = json!({"text": scalar, "after": 1});
+        for lvl in (0..d).rev() {
+            let mut m = serde_json::Map::new();
+            m.insert(format!("k{lvl}"), inner);
+            inner = Value::Object(m);
+        }
+        let mut top = inner.as_object().unwrap().clone();
+        top.insert("tail".into(), json!("some trailing value long enough to fill a chunk"));
+        let expected = Value::Object(top);
+        let docs = json!([expected.clone()]);
+        rep.input();
+        rep.distinct(&("deep-block-scalar", d, folded, brk.name()));
+        check(text.as_bytes(), &[], &[], &expected, &docs, brk, "scale/deep-block-scalars", rep);
+    });
+    let mut r = r;
+    r.mark_exhaustive("scale/deep-block-scalars", "literal and folded block scalars at nesting depth 1..=40 (content indent 4..82) x LF / CRLF / CR");
+    rep.merge(r);
     rep.extra.insert("strings".into(), json!(ygen::STRS.to_vec()));
     rep.extra.insert("special_keys".into(), json!(ygen::KEYS.to_vec()));
     rep.extra.insert("observations_per_document".into(), json!(["YamlIndex::build ok", "to_json_document == tree", "stream_json_document == tree", "cursor walk (value/fields/elements/as_str/alias) == tree"]));
